@@ -55,7 +55,12 @@ func (f *Frame) bytes() []byte {
 	switch f.Kind {
 	case "stun":
 		b := make([]byte, 20+f.Len)
-		binary.BigEndian.PutUint16(b[0:2], ref.MsgType(ref.MethodBinding+int(f.Seed%3), int(f.Seed>>3)%4))
+		method := ref.MethodBinding + int(f.Seed%3)
+		if f.Seed%5 >= 3 {
+			// any of the 4096 method numbers (the first byte of the message then runs up to 0x3F)
+			method = int(f.Seed>>5) % 0x1000
+		}
+		binary.BigEndian.PutUint16(b[0:2], ref.MsgType(method, int(f.Seed>>3)%4))
 		binary.BigEndian.PutUint16(b[2:4], uint16(f.Len))
 		binary.BigEndian.PutUint32(b[4:8], ref.MagicCookie)
 		copy(b[8:], synthPayload(12+f.Len, f.Seed+1))
